@@ -205,6 +205,52 @@ def _br_of(fn, icmp):
     raise AnalysisBroken("comparison at %s does not feed a branch" % icmp.loc())
 
 
+def r3_convert(ctx):
+    """Error Report conversion: the encapsulated length is an offset into the buffer, so it must be in host order when used"""
+    pdb = ctx.pdb
+    fn = pdb.fn("rtr_pdu_convert_footer_byte_order")
+    ctx.touch(fn)
+    LEN = "pdu_error.len_enc_pdu"
+    tonet, tohost = pdb.enum_value("TO_NETWORK_BYTE_ORDER"), pdb.enum_value("TO_HOST_HOST_BYTE_ORDER")
+
+    def feeds_address(ref, depth=0):
+        for u in fn.uses(ref):
+            if u.op in ("getelementptr", "gep"):
+                return True
+            if u.op in ("zext", "sext", "trunc", "add", "phi", "bitcast") and depth < 4 and feeds_address(u.ref, depth + 1):
+                return True
+        return False
+    for direction, name, start in ((tohost, "to host", "NET"), (tonet, "to network", "HOST")):
+        bad = []
+        used = []
+
+        def classify(inst, E, st):
+            if inst.op == "store" and vf.store_field(inst) == LEN:
+                ve = vf.expr(fn, inst["val"])
+                if ve[0] == "call" and ve[1] in ("lrtr_convert_long",):
+                    return ["=len:" + ("HOST" if st.get("len") == "NET" else "NET")]
+            if inst.op == "load" and vf.last_field(vf.expr(fn, inst["ptr"])) == LEN and feeds_address(inst.ref):
+                used.append(inst)
+                if st.get("len") != "HOST":
+                    bad.append(inst)
+            return None
+
+        class H(es.CountHooks):
+            def call_value(self, inst, E):
+                if inst.callee == "rtr_get_pdu_type":
+                    return flow.av_in(10)
+                return None
+        h = H(fn, pdb, classify, None, [("len", start)], None, None, None, {1: direction, ("fld", ("arg", 0), "pdu_header.type"): 10})
+        fl = flow.Flow(fn, h)
+        fl.run()
+        if not used:
+            raise AnalysisBroken("rtr_pdu_convert_footer_byte_order: no use of the encapsulated length as an offset found (direction %s)" % name)
+        ctx.check(not bad, "C04.R3", "convert-footer[Error Report, %s]:offset-in-host-order" % name, (bad[0] if bad else used[0]).loc(),
+                  "the encapsulated length is used as an offset into the buffer %s" % (
+                      "while still in network byte order (the text-length word is read and written far outside the PDU)" if bad else "only while it is in host byte order"),
+                  key="C04.R3:convert:%s" % name.replace(" ", "-"))
+
+
 def r4(ctx, retsets):
     pdb = ctx.pdb
     ctx.rule("C04.R4", "a PDU refused by rtr_receive_pdu is never looked at: the failed size check returns a negative result "
@@ -216,7 +262,7 @@ def r4(ctx, retsets):
             return [(["=sz:bad"], {inst.ref: flow.av_in(0)}), (["=sz:ok"], {inst.ref: flow.av_in(1)})]
         if inst.op == "call" and inst.callee == fsm.CHANGE:
             return ["state"]
-        if inst.op == "call" and inst.callee == "rtr_pdu_footer_to_host_byte_order":
+        if rfc8210.conv_kind(pdb, fn, inst) == ("footer", "host"):
             return ["footer"]
         return None
     outs, fl = es.count_effects(fn, pdb, classify, retsets)
@@ -258,13 +304,27 @@ def r5(ctx, retsets):
              "only the _all forms; both loops return the first negative result at once and otherwise continue until len "
              "bytes are done (how the stream is split cannot change what the parser sees)")
     for raw, loop in (("tr_recv", "tr_recv_all"), ("tr_send", "tr_send_all")):
-        callers = {c.fn.name for c in pdb.callers(raw)}
-        ctx.check(callers == {loop}, "C04.R5", "%s-callers" % raw, "rtrlib/transport/transport.c", "%s called from %s" % (raw, sorted(callers)), key="C04.R5:%s" % raw)
+        fp = "tr_socket.%s_fp" % raw[3:]
+
+        def is_raw(f, inst, raw=raw, fp=fp):
+            """a single transfer attempt: tr_send / tr_recv, or the same written out (socket->send_fp(socket->socket, ...))"""
+            if inst.op != "call":
+                return False
+            if inst.callee == raw:
+                return True
+            if inst.callee is None and inst.d.get("fptr"):
+                e = vf.expr(f, inst["fptr"])
+                return e[0] == "load" and vf.last_field(e[1]) == fp
+            return False
+        # who may make a single transfer attempt: the wrapper and the loop, nobody else in the library
+        users = sorted({f.name for f in pdb.all_functions() for i in f.all_insts() if is_raw(f, i) and "/rtrlib/" in ("/" + f.relfile)})
+        ctx.check(set(users) <= {raw, loop} and loop in users, "C04.R5", "%s-callers" % raw, "rtrlib/transport/transport.c",
+                  "single %s attempts (tr_%s or socket->%s_fp) made in %s" % (raw[3:], raw[3:], raw[3:], users), key="C04.R5:%s" % raw)
         fn = pdb.fn(loop)
         ctx.touch(fn)
         for v in (-1, -2, -3, -4, -77):
             def classify(inst, E, st, v=v):
-                if inst.op == "call" and inst.callee == raw:
+                if is_raw(fn, inst):
                     n_ = st.get("calls", 0)
                     if n_ == 0:
                         return [(["calls", "=seq:neg"], {inst.ref: flow.av_in(v)}), (["calls", "=seq:pos"], {inst.ref: flow.av_in(3)})]
@@ -279,7 +339,7 @@ def r5(ctx, retsets):
                 ctx.check(rets == {v}, "C04.R5", "%s[%s %d]" % (loop, label, v), "%s:%d" % (fn.relfile, fn.line),
                           "returns %s (expected %d at once)" % (sorted(rets, key=str) if sel else "nothing: the loop goes on", v), key="C04.R5:%s:neg" % loop)
         # progress: offset and remaining length advance by the returned count
-        calls = fn.calls(raw)
+        calls = [i for i in fn.all_insts() if is_raw(fn, i)]
         ctx.floor("C04.R5", len(calls), 1)
         c = calls[0]
         ptr = vf.expr(fn, c.args[1])
@@ -645,11 +705,16 @@ def check(ctx):
     retsets = flow.return_sets(ctx.pdb)
     r1(ctx, retsets)
     r2_r3(ctx)
+    r3_convert(ctx)
     r4(ctx, retsets)
     r5(ctx, retsets)
     r6(ctx)
     r7_r8(ctx)
     r9(ctx, retsets)
+    from specs import C14
+    with ctx.shared({"C14.R6": ("C04.R10", "rtr_send_error_pdu_from_host converts exactly as much of the echoed buffer as it was given (8 bytes: header "
+                                "only; a whole PDU: header and footer) - several callers pass an 8-byte stack copy")}):
+        C14.r6(ctx, retsets)
     ctx.not_decided("termination when a user transport keeps returning 0 bytes without error")
     ctx.not_decided("absence of undefined shifts / asserts whose truth needs the invariant depth <= prefix length <= address width")
 
